@@ -42,9 +42,20 @@ func addr2val12(a netip.Addr) int {
 	return int(b[1])<<16 | int(b[2])<<8 | int(b[3])
 }
 
-// hostsLine12: `<rule> <ipv4> [<ipv6>]`, blanks of either kind between the fields
-func (r *Run) hostsLine12(rl rule12) string {
+// hostsLine12: `<rule> <ipv4> [<ipv6>]`, blanks of either kind between the fields. A rule without address
+// is the rule alone, followed by blanks or (in a file, where the text loader removes comments) by its
+// addresses commented out.
+func (r *Run) hostsLine12(rl rule12, inFile bool) string {
 	sep := []string{" ", "\t", "  "}[r.Rng.Intn(3)]
+	if rl.noAddr {
+		switch k := r.Rng.Intn(3); {
+		case k == 0 && inFile:
+			return rl.text() + sep + "# " + val2addr12(rl.val).String()
+		case k == 1:
+			return rl.text() + sep
+		}
+		return rl.text()
+	}
 	s := rl.text() + sep + val2addr12(rl.val).String()
 	if r.Rng.Intn(4) == 0 {
 		s += sep + "fd00::" + strconv.FormatInt(int64(rl.val), 16)
@@ -79,7 +90,7 @@ func hostsMatch12(h *hostsplugin.Hosts) func(string) (int, bool) {
 func (r *Run) loadHosts12(dir string, rules []rule12, nEntries, nFiles int) (func(string) (int, bool), func() int, error) {
 	args := &hostsplugin.Args{}
 	for _, rl := range rules[:nEntries] {
-		args.Entries = append(args.Entries, r.hostsLine12(rl))
+		args.Entries = append(args.Entries, r.hostsLine12(rl, false))
 	}
 	rest := rules[nEntries:]
 	for f := 0; f < nFiles; f++ {
@@ -89,11 +100,11 @@ func (r *Run) loadHosts12(dir string, rules []rule12, nEntries, nFiles int) (fun
 		for i, rl := range part {
 			switch {
 			case len(rules) > 60 || i%3 == 0:
-				sb.WriteString(r.hostsLine12(rl) + "\n")
+				sb.WriteString(r.hostsLine12(rl, true) + "\n")
 			case i%3 == 1:
-				sb.WriteString("  " + r.hostsLine12(rl) + "  # comment\n\n")
+				sb.WriteString("  " + r.hostsLine12(rl, true) + "  # comment\n\n")
 			default:
-				sb.WriteString(r.hostsLine12(rl) + "\r\n")
+				sb.WriteString(r.hostsLine12(rl, true) + "\r\n")
 			}
 		}
 		p := filepath.Join(dir, fmt.Sprintf("hosts-%d.txt", f))
@@ -159,6 +170,32 @@ func (r *Run) hostsRules12() ([]rule12, []string) {
 		// the table's default type is full; a pattern holding ':' needs its prefix
 		rl.prefix = rl.kind != "full" || r.Rng.Intn(2) == 0 || strings.Contains(rl.pattern, ":")
 		rules = append(rules, rl)
+	}
+	// every other table holds rules without address (a name listed to keep it out of a broader rule, a line
+	// whose addresses were commented out): some of the rules drawn above, and now and then a full / domain
+	// rule written for a name that an earlier rule with addresses describes as well
+	if r.Rng.Intn(2) == 0 {
+		for i := range rules {
+			if r.Rng.Intn(3) == 0 {
+				rules[i].noAddr = true
+			}
+		}
+		if len(bases) > 0 && r.Rng.Intn(2) == 0 {
+			b := bases[r.Rng.Intn(len(bases))]
+			if r.Rng.Intn(2) == 0 {
+				b = r.label12() + "." + b
+			}
+			b = strings.Trim(norm12(b), ".")
+			for strings.Contains(b, "..") {
+				b = strings.ReplaceAll(b, "..", ".")
+			}
+			if b != "" {
+				rl := rule12{val: 100 + len(rules), kind: []string{"full", "domain"}[r.Rng.Intn(2)], pattern: r.spell12(b), prefix: true, noAddr: true}
+				bases = append(bases, b)
+				rules = append(rules, rl)
+				r.Rng.Shuffle(len(rules), func(i, j int) { rules[i], rules[j] = rules[j], rules[i] })
+			}
+		}
 	}
 	return rules, bases
 }
